@@ -3,6 +3,8 @@
    before the operation completes is `err` on both sides (the harness RNG reports exhaustion). *)
 open Io
 let p = Extracted.addsub
+let sp = Extracted.signs
+let rp = Extracted.rand
 let v = Base.coq_val
 let arg_r s = digits_of_string (strip_prefix "r:" s)
 let arg_ic s = let r = arg_i s in Base.from_biguint r.Base.sg (Base.strip r.Base.mag)
@@ -24,35 +26,35 @@ let init () =
     reg_ms name
       (function [n; s] -> let s = arg_r s in outr rs s (m (arg_n n) s) | _ -> failwith "arity")
       (function [n; s] -> let s = arg_r s in outr (fun z -> z) s (sp (arg_n n) s) | _ -> failwith "arity") in
-  bits2 "rnd.gen_biguint" Rand.gen_biguint (fun n s -> bindo (SpecRand.spec_gen_biguint n s) (fun (z, r) -> Base.Ret (su z, r))) res_u;
-  bits2 "rnd.bits_u" Rand.random_bits_u (fun n s -> bindo (SpecRand.spec_gen_biguint n s) (fun (z, r) -> Base.Ret (su z, r))) res_u;
-  bits2 "rnd.gen_bigint" Rand.gen_bigint (fun n s -> bindo (SpecRand.spec_gen_bigint n s) (fun (z, r) -> Base.Ret (si z, r))) res_i;
-  bits2 "rnd.bits_i" Rand.random_bits_i (fun n s -> bindo (SpecRand.spec_gen_bigint n s) (fun (z, r) -> Base.Ret (si z, r))) res_i;
+  bits2 "rnd.gen_biguint" (Rand.gen_biguint rp) (fun n s -> bindo (SpecRand.spec_gen_biguint n s) (fun (z, r) -> Base.Ret (su z, r))) res_u;
+  bits2 "rnd.bits_u" (Rand.random_bits_u rp) (fun n s -> bindo (SpecRand.spec_gen_biguint n s) (fun (z, r) -> Base.Ret (su z, r))) res_u;
+  bits2 "rnd.gen_bigint" (Rand.gen_bigint rp) (fun n s -> bindo (SpecRand.spec_gen_bigint n s) (fun (z, r) -> Base.Ret (si z, r))) res_i;
+  bits2 "rnd.bits_i" (Rand.random_bits_i rp) (fun n s -> bindo (SpecRand.spec_gen_bigint n s) (fun (z, r) -> Base.Ret (si z, r))) res_i;
   reg_ms "rnd.below"
-    (function [b; s] -> let s = arg_r s in outr res_u s (Rand.gen_biguint_below (arg_uc b) s) | _ -> failwith "arity")
+    (function [b; s] -> let s = arg_r s in outr res_u s (Rand.gen_biguint_below rp (arg_uc b) s) | _ -> failwith "arity")
     (function [b; s] -> let s = arg_r s in outr su s (SpecRand.spec_below (v (arg_uc b)) s) | _ -> failwith "arity");
   (* BigUint ranges *)
   let urange name m sp =
     reg_ms name
       (function [lo; hi; s] -> let s = arg_r s in outr res_u s (m (arg_uc lo) (arg_uc hi) s) | _ -> failwith "arity")
       (function [lo; hi; s] -> let s = arg_r s in outr su s (sp (v (arg_uc lo)) (v (arg_uc hi)) s) | _ -> failwith "arity") in
-  urange "rnd.urange" (Rand.gen_biguint_range p) SpecRand.spec_range;
-  urange "rnd.uu_single" (Rand.uu_sample_single p) SpecRand.spec_range;
-  urange "rnd.u_gen_range" (Rand.uu_sample_single p) SpecRand.spec_range;
-  urange "rnd.uu_new" (fun lo hi s -> bindo (Rand.uu_new p lo hi) (fun u -> Rand.uu_sample p u s)) SpecRand.spec_range;
-  urange "rnd.uu_incl" (fun lo hi s -> bindo (Rand.uu_new_inclusive p lo hi) (fun u -> Rand.uu_sample p u s)) SpecRand.spec_range_inclusive;
-  urange "rnd.u_gen_range_incl" (fun lo hi s -> bindo (Rand.uu_new_inclusive p lo hi) (fun u -> Rand.uu_sample p u s)) SpecRand.spec_range_inclusive;
+  urange "rnd.urange" (Rand.gen_biguint_range rp p) SpecRand.spec_range;
+  urange "rnd.uu_single" (Rand.uu_sample_single rp p) SpecRand.spec_range;
+  urange "rnd.u_gen_range" (Rand.uu_sample_single rp p) SpecRand.spec_range;
+  urange "rnd.uu_new" (fun lo hi s -> bindo (Rand.uu_new rp p lo hi) (fun u -> Rand.uu_sample rp p u s)) SpecRand.spec_range;
+  urange "rnd.uu_incl" (fun lo hi s -> bindo (Rand.uu_new_inclusive rp p lo hi) (fun u -> Rand.uu_sample rp p u s)) SpecRand.spec_range_inclusive;
+  urange "rnd.u_gen_range_incl" (fun lo hi s -> bindo (Rand.uu_new_inclusive rp p lo hi) (fun u -> Rand.uu_sample rp p u s)) SpecRand.spec_range_inclusive;
   (* BigInt ranges *)
   let irange name m sp =
     reg_ms name
       (function [lo; hi; s] -> let s = arg_r s in outr res_i s (m (arg_ic lo) (arg_ic hi) s) | _ -> failwith "arity")
       (function [lo; hi; s] -> let s = arg_r s in outr si s (sp (Base.ival (arg_ic lo)) (Base.ival (arg_ic hi)) s) | _ -> failwith "arity") in
-  irange "rnd.irange" (Rand.gen_bigint_range p) SpecRand.spec_range;
-  irange "rnd.ui_single" (Rand.ui_sample_single p) SpecRand.spec_range;
-  irange "rnd.i_gen_range" (Rand.ui_sample_single p) SpecRand.spec_range;
-  irange "rnd.ui_new" (fun lo hi s -> bindo (Rand.ui_new p lo hi) (fun u -> Rand.ui_sample p u s)) SpecRand.spec_range;
-  irange "rnd.ui_incl" (fun lo hi s -> bindo (Rand.ui_new_inclusive p lo hi) (fun u -> Rand.ui_sample p u s)) SpecRand.spec_range_inclusive;
-  irange "rnd.i_gen_range_incl" (fun lo hi s -> bindo (Rand.ui_new_inclusive p lo hi) (fun u -> Rand.ui_sample p u s)) SpecRand.spec_range_inclusive;
+  irange "rnd.irange" (Rand.gen_bigint_range rp sp p) SpecRand.spec_range;
+  irange "rnd.ui_single" (Rand.ui_sample_single rp sp p) SpecRand.spec_range;
+  irange "rnd.i_gen_range" (Rand.ui_sample_single rp sp p) SpecRand.spec_range;
+  irange "rnd.ui_new" (fun lo hi s -> bindo (Rand.ui_new rp sp p lo hi) (fun u -> Rand.ui_sample rp sp p u s)) SpecRand.spec_range;
+  irange "rnd.ui_incl" (fun lo hi s -> bindo (Rand.ui_new_inclusive rp sp p lo hi) (fun u -> Rand.ui_sample rp sp p u s)) SpecRand.spec_range_inclusive;
+  irange "rnd.i_gen_range_incl" (fun lo hi s -> bindo (Rand.ui_new_inclusive rp sp p lo hi) (fun u -> Rand.ui_sample rp sp p u s)) SpecRand.spec_range_inclusive;
   (* one sampler, two samples: the sampler is not consumed / mutated by sampling *)
   let twice sample render s u =
     bindo (sample u s) (fun (a, r) -> bindo (sample u r) (fun (b, r2) -> Base.Ret (render a ^ " " ^ render b, r2))) in
@@ -60,11 +62,11 @@ let init () =
     bindo (sp lo hi s) (fun (a, r) -> bindo (sp lo hi r) (fun (b, r2) -> Base.Ret (render a ^ " " ^ render b, r2))) in
   reg_ms "rnd.uu_new2"
     (function [lo; hi; s] -> let s = arg_r s in
-       outr (fun x -> x) s (bindo (Rand.uu_new p (arg_uc lo) (arg_uc hi)) (twice (Rand.uu_sample p) res_u s)) | _ -> failwith "arity")
+       outr (fun x -> x) s (bindo (Rand.uu_new rp p (arg_uc lo) (arg_uc hi)) (twice (Rand.uu_sample rp p) res_u s)) | _ -> failwith "arity")
     (function [lo; hi; s] -> let s = arg_r s in
        outr (fun x -> x) s (spec_twice SpecRand.spec_range su (v (arg_uc lo)) (v (arg_uc hi)) s) | _ -> failwith "arity");
   reg_ms "rnd.ui_new2"
     (function [lo; hi; s] -> let s = arg_r s in
-       outr (fun x -> x) s (bindo (Rand.ui_new p (arg_ic lo) (arg_ic hi)) (twice (Rand.ui_sample p) res_i s)) | _ -> failwith "arity")
+       outr (fun x -> x) s (bindo (Rand.ui_new rp sp p (arg_ic lo) (arg_ic hi)) (twice (Rand.ui_sample rp sp p) res_i s)) | _ -> failwith "arity")
     (function [lo; hi; s] -> let s = arg_r s in
        outr (fun x -> x) s (spec_twice SpecRand.spec_range si (Base.ival (arg_ic lo)) (Base.ival (arg_ic hi)) s) | _ -> failwith "arity")
